@@ -1,6 +1,8 @@
 package world
 
 import (
+	"google.golang.org/grpc/codes"
+	"google.golang.org/grpc/status"
 	"sync/atomic"
 	"context"
 	"encoding/hex"
@@ -547,7 +549,11 @@ func RunRemoteDkg(ctx context.Context, sc *DkgScenario, binary string, log *Log)
 			}
 		}
 	}
+	silentRun, skipTo := 0, 0
 	for i, call := range sc.Calls {
+		if i < skipTo {
+			continue
+		}
 		if call.Msg == "tick" {
 			time.Sleep(time.Duration(call.TickMs) * time.Millisecond)
 			log.Emit(Ev{"ev": "Call", "i": i, "msg": "tick"})
@@ -632,11 +638,23 @@ func RunRemoteDkg(ctx context.Context, sc *DkgScenario, binary string, log *Log)
 			"changed": before != after, "crashed": !alive}
 		if cerr != nil {
 			ev["err"] = cerr.Error()
+			// the caller got neither a response nor an error of the server within the 20 s it was prepared to wait
+			ev["noanswer"] = status.Code(cerr) == codes.DeadlineExceeded
 		}
 		for k, v := range extra {
 			ev[k] = v
 		}
 		log.Emit(ev)
+		// (a server that has stopped answering would make every further call of a long sequence wait its 20 s: two calls in a row
+		// without an answer end the sequence - except for the last three calls, the probes that follow a sequence of retries)
+		if ev["noanswer"] == true {
+			silentRun++
+		} else {
+			silentRun = 0
+		}
+		if silentRun >= 2 && i < len(sc.Calls)-4 {
+			skipTo = len(sc.Calls) - 3
+		}
 	}
 	if len(sc.ConcGens) > 0 {
 		// several generations requested at the same moment of (possibly different) instances: the real gRPC sender and receiver of the
